@@ -306,6 +306,9 @@ def EmbS : Spec.Stmt → Node → Prop
   | .set lv v, n => ∃ p q l r, n = .stmt p (.binary (S "assign") q l r) ∧ EmbLv lv l ∧ Emb v r
   | .call f as, n => ∃ p q q' wr ops, n = .stmt p (.callFn (.s f) q (.loadList (S "load_list") q' ops.reverse) true false wr .none) ∧ EmbL as ops
   | .exit, n => ∃ p q, n = .stmt p (.callFn (.s (S "exit")) q .none true false false .none)
+  | .put m v lv, n => ∃ p q l r, n = .stmt p (.spAssign q l r m.tag.toList) ∧ Emb lv l ∧ Emb v r
+  | .delete t, n => ∃ p q l, n = .stmt p (.unary (S "delete") q l) ∧ Emb t l
+  | .hilite t, n => ∃ p q l, n = .stmt p (.unary (S "hilite") q l) ∧ Emb t l
   | _, _ => False
 
 def EmbSs : List Spec.Stmt → List Node → Prop
@@ -317,6 +320,9 @@ def EmbSH (hs : List Spec.Name) : Spec.Stmt → Node → Prop
   | .set lv v, n => ∃ p q l r, n = .stmt p (.binary (S "assign") q l r) ∧ EmbLv lv l ∧ EmbH hs v r
   | .call f as, n => ∃ p q q' ops, n = .stmt p (.callFn (.s f) q (.loadList (S "load_list") q' ops.reverse) true false (hs.contains f) .none) ∧ EmbLH hs as ops
   | .exit, n => ∃ p q, n = .stmt p (.callFn (.s (S "exit")) q .none true false false .none)
+  | .put m v lv, n => ∃ p q l r, n = .stmt p (.spAssign q l r m.tag.toList) ∧ Emb lv l ∧ EmbH hs v r
+  | .delete t, n => ∃ p q l, n = .stmt p (.unary (S "delete") q l) ∧ Emb t l
+  | .hilite t, n => ∃ p q l, n = .stmt p (.unary (S "hilite") q l) ∧ Emb t l
   | _, _ => False
 
 def EmbSsH (hs : List Spec.Name) : List Spec.Stmt → List Node → Prop
@@ -395,11 +401,60 @@ def FragLv : Spec.Expr → Bool
   | .oprop v o => FragE (.oprop v o)
   | _ => false
 
+/-- targets of `put … into|after|before`, `delete`, `hilite` below a chunk of rank `r`: a chain of strictly coarser chunks
+    (`char 1 of word 2 of …`: the scheme compiles it to ONE set of eight slots) that bottoms out in `field e` or a local variable.
+    (`FragTg 0` = all targets.  A chunk of a GLOBAL is compiled to `46 n`, which the model turns into a global or a local
+    variable node depending on the globals seen so far: outside, see design.d/C02Link.md.) -/
+def FragTg (r : Nat) : Spec.Expr → Bool
+  | .chunk k a b d => decide (r < k.rank) && FragE a && !isZero a && FragE b && FragTg k.rank d
+  | .field e => FragE e
+  | .var .loc v => idOk v
+  | _ => false
+
+/-- a target is an expression of the fragment (so the text / token layers treat it like any other expression) -/
+theorem fragTg_fragE : ∀ (e : Spec.Expr) (r : Nat), FragTg r e = true → FragE e = true
+  | .chunk k a b d, r, h => by
+    simp only [FragTg, Bool.and_eq_true] at h
+    simp only [FragE, Bool.and_eq_true]
+    exact ⟨⟨⟨h.1.1.1.2, h.1.1.2⟩, h.1.2⟩, fragTg_fragE d k.rank h.2⟩
+  | .field e, _, h => by simpa [FragTg, FragE] using h
+  | .var .loc v, _, h => by simpa [FragTg, FragE] using h
+  | .var .param _, _, h => by simp [FragTg] at h
+  | .var .glob _, _, h => by simp [FragTg] at h
+  | .var .prop _, _, h => by simp [FragTg] at h
+  | .int _, _, h => by simp [FragTg] at h
+  | .str _, _, h => by simp [FragTg] at h
+  | .float _ _, _, h => by simp [FragTg] at h
+  | .sym _, _, h => by simp [FragTg] at h
+  | .me, _, h => by simp [FragTg] at h
+  | .bin _ _ _, _, h => by simp [FragTg] at h
+  | .un _ _, _, h => by simp [FragTg] at h
+  | .call _ _, _, h => by simp [FragTg] at h
+  | .mcall _ _ _, _, h => by simp [FragTg] at h
+  | .list _, _, h => by simp [FragTg] at h
+  | .plist _, _, h => by simp [FragTg] at h
+  | .the _ _ _, _, h => by simp [FragTg] at h
+  | .key _, _, h => by simp [FragTg] at h
+  | .movie _, _, h => by simp [FragTg] at h
+  | .oprop _ _, _, h => by simp [FragTg] at h
+
+/-- is the target a chunk? (`delete` needs one; `put … into <variable>` is written `set`) -/
+def isChunkE : Spec.Expr → Bool
+  | .chunk _ _ _ _ => true
+  | _ => false
+
+def isVarE : Spec.Expr → Bool
+  | .var _ _ => true
+  | _ => false
+
 /-- statements of the link theorems -/
 def FragS : Spec.Stmt → Bool
   | .set lv v => FragLv lv && FragE v
   | .call f as => idOk f && plainCallName f && !gvClash f as && FragL as
   | .exit => true
+  | .put m v lv => FragE v && FragTg 0 lv && !(decide (m = .into) && isVarE lv)
+  | .delete t => isChunkE t && FragTg 0 t
+  | .hilite t => FragTg 0 t
   | _ => false
 
 def FragSs : List Spec.Stmt → Bool
@@ -430,6 +485,9 @@ def FragX : Spec.Stmt → Bool
   | .set lv v => FragS (.set lv v)
   | .call f as => FragS (.call f as)
   | .exit => true
+  | .put m v lv => FragS (.put m v lv)
+  | .delete t => FragS (.delete t)
+  | .hilite t => FragS (.hilite t)
   | .ifThen c t e => FragE c && FragXs t && FragXs e
   | .repeatWhile c b => FragE c && FragXs b
   | .repeatWith (.var .loc v) a b _ body => idOk v && FragE a && FragE b && FragXs body
@@ -511,6 +569,9 @@ def mS : Nat → Spec.Stmt → Str
   | ind, .set lv v => Lscr.indentOf ind ++ S "set " ++ mE lv ++ S " = " ++ mE v ++ S "\n"
   | ind, .call f as => Lscr.indentOf ind ++ f ++ (if as.isEmpty then [] else S " " ++ mArgs as) ++ S "\n"
   | ind, .exit => Lscr.indentOf ind ++ S "exit\n"
+  | ind, .put m v lv => Lscr.indentOf ind ++ S "put " ++ mE v ++ S " " ++ m.tag.toList ++ S " " ++ mE lv ++ S "\n"
+  | ind, .delete t => Lscr.indentOf ind ++ S "delete " ++ mE t ++ S "\n"
+  | ind, .hilite t => Lscr.indentOf ind ++ S "hilite " ++ mE t ++ S "\n"
   | ind, .ifThen c t e =>
     Lscr.indentOf ind ++ S "if " ++ mE c ++ S " then\n" ++ mSs (ind + 1) t
       ++ (if e.isEmpty then [] else Lscr.indentOf ind ++ S "else\n" ++ mSs (ind + 1) e) ++ Lscr.indentOf ind ++ S "end if" ++ S "\n"
